@@ -167,8 +167,9 @@ func (d *rdb) stmtWithLogCrashPoints(q string, probes []string) string {
 	res := d.stmt(q)
 	storage.VerifSetHook(nil)
 	for _, im := range images {
-		d.cfg.tr.Op("image %d %s %s", im.k, im.cut, strings.Join(hexAll(probes), " "))
-		d.guard(func() string { d.inspectImage(im.dir, probes); return "" })
+		// after the probe statements: a second crash and a second recovery
+		d.cfg.tr.Op("image %d %s %s again", im.k, im.cut, strings.Join(hexAll(probes), " "))
+		d.guard(func() string { d.inspectImage(im.dir, append(append([]string{}, probes...), "!again")); return "" })
 		d.cfg.st.Inc("crash-images")
 	}
 	return res
@@ -836,7 +837,7 @@ func runDB(cfg *config) {
 		n := 12 * cfg.scale
 		// one history deep enough for an internal-node split (two in the thorough tier)
 		id++
-		runDeep(cfg, id, r.Fork(), 1400, false)
+		runDeep(cfg, id, r.Fork(), 1900, false)
 		if cfg.tier == "thorough" {
 			id++
 			runDeep(cfg, id, r.Fork(), 2900, false)
